@@ -53,11 +53,21 @@ def step (c : CS) (l : Line) : CS :=
       else c
   | "api" =>
       let c := branch c s!"api/{l.str "name"}/{l.nat "ret"}"
-      c
+      if (l.str "name").startsWith "setstate_" ∧ (l.str "name").endsWith "_in_failure" ∧ l.nat "ret" = 0 then
+        mism c s!"SPEC[setstate-accepted-while-running] {l.str "name"} returned success on a running TPM" else c
   | "fresume" =>
       let c := branch c s!"fresume/{l.nat "ret"}"
       let c := if l.nat "infail" = 0 then mism c "SPEC[failure-mode-lost-by-resume] failure mode not preserved by suspend/resume" else c
+      let c := if l.nat "infail" ≠ 0 ∧ l.nat "ret" = 0 then
+                 mism c "SPEC[maininit-hides-failure] TPMLIB_MainInit returned success although the TPM came up in failure mode" else c
+      let c := if l.nat "stores" ≠ 0 then mism c s!"SPEC[store-in-failure-mode] {l.nat "stores"} storage write(s) while resuming in failure mode" else c
       c
+  | "initfail" =>
+      let c := branch c s!"initfail/mode={l.nat "mode"}/ret={l.nat "ret"}/infail={l.nat "infail"}"
+      let c := if l.nat "infail" ≠ 0 ∧ l.nat "ret" = 0 then
+                 mism c s!"SPEC[maininit-hides-failure] TPMLIB_MainInit returned success although storage delivered unusable data (mode {l.nat "mode"}) and the TPM is in failure mode" else c
+      let c := if l.nat "infail" ≠ 0 ∧ l.nat "stores" ≠ 0 then mism c s!"SPEC[store-in-failure-mode] storage written during a failed MainInit" else c
+      { c with inFail := l.nat "infail" ≠ 0 }
   | "recover" =>
       let c := branch c s!"recover/{l.nat "ret"}/{l.nat "startup_rc"}"
       let c := if l.nat "ret" ≠ 0 ∨ l.nat "startup_rc" ≠ 0 ∨ l.nat "infail" ≠ 0 then
